@@ -10,6 +10,7 @@ Inductive expr (Q : Type) : Type :=
 | EBool (b : bool)
 | EString (parts : list (string + (expr Q * option string)))   (* Fixed | Interpolation *)
 | EIdent (x : string)
+| EUnit (x : string)                                   (* Expression::UnitIdentifier, no prefix *)
 | EUn (op : unop) (e : expr Q)
 | EBin (op : binop) (a b : expr Q)
 | ECall (f : string) (args : list (expr Q))            (* Expression::FunctionCall *)
@@ -22,6 +23,7 @@ Arguments EScalar {Q} q.
 Arguments EBool {Q} b.
 Arguments EString {Q} parts.
 Arguments EIdent {Q} x.
+Arguments EUnit {Q} x.
 Arguments EUn {Q} op e.
 Arguments EBin {Q} op a b.
 Arguments ECall {Q} f args.
@@ -37,13 +39,19 @@ Inductive stmt (Q : Type) : Type :=
 | SFn (f : string) (params : list string) (locals : list (string * expr Q)) (body : expr Q)
 | SForeign (f : string)                                  (* fn without body *)
 | SStruct (sname : string) (sfields : list string)
-| SProc (name : string) (args : list (expr Q)).          (* print / assert / assert_eq *)
+| SProc (name : string) (args : list (expr Q))           (* print / assert / assert_eq *)
+| SDim                                                   (* dimension definition: no run-time effect *)
+| SUnitBase (name : string)                              (* `unit name: Dim` (base unit) *)
+| SType (text : string).                                 (* type(e): prints the type the checker inferred *)
 Arguments SExpr {Q} e.
 Arguments SLet {Q} x e.
 Arguments SFn {Q} f params locals body.
 Arguments SForeign {Q} f.
 Arguments SStruct {Q} sname sfields.
 Arguments SProc {Q} name args.
+Arguments SDim {Q}.
+Arguments SUnitBase {Q} name.
+Arguments SType {Q} text.
 
 Definition program (Q : Type) := list (stmt Q).
 
